@@ -289,7 +289,7 @@ def check_C02(run):
             ("faults-warm", dict(over=dict(MaxT=3, Ticks="{1}", MaxKids=4, MaxRecs=1, MaxRevokes=1, MaxFaults=2, MaxOpFaults=2, EmitEvery=8 if q else 30),
                                  ik=("shared",), sk=(True,)))]
     fams.append(("midop-clock", dict(over=dict(P=1, MaxT=3 if q else 4, Ticks="{1}", MidOpTicks="TRUE", MaxKids=2 if q else 4, MaxRecs=1, MaxRevokes=0, MaxFaults=0,
-                                               EmitEvery=6 if q else 30), ik=("session",), sk=(True,))))
+                                               EmitEvery=1 if q else 4), ik=("session",), sk=(True,))))
     if not q:
         fams.append(("faults-2proc", dict(over=dict(MaxT=1, Ticks="{1}", MaxKids=4, MaxRecs=1, MaxRevokes=0, MaxFaults=2, MaxOpFaults=1, EmitEvery=100),
                                           procs=("p1", "p2"), ik=("session",), sk=(True,))))
